@@ -638,8 +638,12 @@ func coverTours(out [][]int, from, to func(e int) int, init, nedges, maxlen int,
 		return -1
 	}
 	// BFS from s to the nearest state with an uncovered out-edge; returns edge path
+	stamp := make([]int, len(out))
+	prevE := make([]int, len(out))
+	gen := 0
 	bfs := func(s int) []int {
-		prev := map[int]int{s: -1}
+		gen++
+		stamp[s] = gen
 		q := []int{s}
 		for len(q) > 0 {
 			u := q[0]
@@ -647,9 +651,12 @@ func coverTours(out [][]int, from, to func(e int) int, init, nedges, maxlen int,
 			if u != s && remaining[u] > 0 {
 				var path []int
 				for u != s {
-					e := prev[u]
-					path = append([]int{e}, path...)
+					e := prevE[u]
+					path = append(path, e)
 					u = from(e)
+				}
+				for i, j := 0, len(path)-1; i < j; i, j = i+1, j-1 {
+					path[i], path[j] = path[j], path[i]
 				}
 				return path
 			}
@@ -658,8 +665,9 @@ func coverTours(out [][]int, from, to func(e int) int, init, nedges, maxlen int,
 					continue
 				}
 				v := to(e)
-				if _, seen := prev[v]; !seen {
-					prev[v] = e
+				if stamp[v] != gen {
+					stamp[v] = gen
+					prevE[v] = e
 					q = append(q, v)
 				}
 			}
